@@ -134,6 +134,7 @@ impl Clone for TransitionCycle {
     requires tour_ok(network, tour), network.has(end_depot_of_predecessor), network.has(start_depot_of_successor),
     ensures r == tour_counter(tour) + dist_m(network, end_depot_of_predecessor, sp_start_depot(tour))
             + dist_m(network, sp_end_depot(tour), start_depot_of_successor),
+        -3 * counter_bound() <= r <= 3 * counter_bound(),
 //@first
         proof {
             lemma_tour_ok_depots(network, tour);
@@ -325,6 +326,79 @@ impl Clone for TransitionCycle {
             assert forall|x: CycleIdx| #[trigger] nv.empty.contains(x) <==> (0 <= x < nv.n() && nv.cyc(x as int).len() == 0) by {
                 if x < self.n() && x != k { assert(nv.cyc(x as int) == self.cyc(x as int)); }
             }
+        }
+//@end
+//@item solution/src/transition/modifications.rs Transition::remove_vehicle
+//@retname r
+//@sig
+    requires
+        self.wf(network, eff_tours(updated_tours@, old_tours@)),
+        self.has_vehicle(vehicle),
+        // caller-side assumption: the tour of the removed vehicle is read from old_tours
+        !updated_tours@.contains_key(vehicle),
+    ensures
+        r.wf(network, eff_tours(updated_tours@, old_tours@)), // @obl C15.remove_vehicle.wf
+        // the vehicle is gone from its cycle and from the lookup; the cycle index is pushed to
+        // empty_cycles if the cycle became empty
+        r.cycle_lookup@ == self.cycle_lookup@.remove(vehicle), // @obl C15.remove_vehicle.lookup
+        r.n() == self.n(),
+        r.cyc(self.cycle_of(vehicle)) == self.cyc(self.cycle_of(vehicle)).remove(self.cyc(self.cycle_of(vehicle)).index_of(vehicle)), // @obl C15.remove_vehicle.cycle
+        forall|i: int| 0 <= i < self.n() && i != self.cycle_of(vehicle) ==> #[trigger] r.cyc(i) == self.cyc(i),
+        r.empty_cycles@ == (if self.cyc(self.cycle_of(vehicle)).len() == 1 { self.empty_cycles@.push(self.cycle_of(vehicle) as CycleIdx) } else { self.empty_cycles@ }), // @obl C15.remove_vehicle.empty_cycles
+        r.total_len() == self.total_len() - 1,
+//@closure-params 0
+    &VehicleIdx
+//@closure 0
+    -> (b: bool) ensures b == (*p0 != vehicle)
+//@before "let cycle_idx"
+        proof {
+            assert(cycles@ =~= self.cycles@) by {
+                assert forall|i: int| 0 <= i < self.cycles@.len() implies #[trigger] cycles@[i] == self.cycles@[i] by {
+                    assert(vstd::pervasive::cloned(self.cycles@[i], cycles@[i]));
+                }
+            }
+        }
+//@before "let new_maintenance_counter"
+        proof {
+            let tours = eff_tours(updated_tours@, old_tours@);
+            let k = *cycle_idx as int;
+            let c = self.cyc(k);
+            let n = c.len() as int;
+            self@.lemma_bounds(network, tours);
+            assert(old_cycle.maintenance_counter == self@.cycles[k].maintenance_counter);
+            assert(c.contains(vehicle));
+            let p = c.index_of(vehicle);
+            assert(self.cyc(k)[p] == vehicle);
+            assert(tour_ok(network, &tours[vehicle]));
+            // the filter drops exactly position p
+            assert(exists|m: Seq<bool>| #![trigger mask_filter(c, m)] m.len() == c.len() && new_cycle_vec@ == mask_filter(c, m)
+                && forall|i: int| 0 <= i < c.len() ==> #[trigger] m[i] == (c[i] != vehicle));
+            let m = choose|m: Seq<bool>| #![trigger mask_filter(c, m)] m.len() == c.len() && new_cycle_vec@ == mask_filter(c, m)
+                && forall|i: int| 0 <= i < c.len() ==> #[trigger] m[i] == (c[i] != vehicle);
+            lemma_mask_filter_remove(c, m, p);
+            if n >= 2 {
+                lemma_mod_next(p, n);
+                lemma_mod_prev(p, n);
+                let pr = self.pred_of(vehicle);
+                let su = self.succ_of(vehicle);
+                assert(self.cyc(k)[(p + n - 1) % n] == pr);
+                assert(self.cyc(k)[(p + 1) % n] == su);
+                lemma_tour_ok_depots(network, &tours[pr]);
+                lemma_tour_ok_depots(network, &tours[su]);
+                lemma_dist_bound(network, sp_end_depot(&tours[pr]), sp_start_depot(&tours[su]));
+                lemma_counter_remove(network, tours, c, p);
+            }
+        }
+//@after "let new_cycle ="
+        let ghost nc = new_cycle;
+//@before "Transition {"
+        proof {
+            let tours = eff_tours(updated_tours@, old_tours@);
+            let k = self.cycle_of(vehicle);
+            assert(cycles@ =~= self.cycles@.update(k, nc));
+            let nv = TView { cycles: cycles@, total_violation: total_maintenance_violation as int, total_counter: total_maintenance_counter as int,
+                lookup: cycle_lookup@, empty: empty_cycles@ };
+            lemma_remove_vehicle_wf(self@, nv, network, tours, vehicle, nc);
         }
 //@end
 
